@@ -148,6 +148,68 @@ def wide_work(inp):
     return [(sig, what, inp) for sig, what in out]
 
 
+def wide_weight_work(inp):
+    """tallies that differ by less than one unit in the last place of a double (weights above 2^53 one vote apart, rationals 1e-17 apart):
+    first-place and Borda tallies, the induced ranking and the Plurality / Borda winners must follow the *exact* values"""
+    from .. import elections as E
+    from votekit import utils as U
+    import votekit.elections as VE
+    E.fast_df(True)
+    cands = inp["cands"]
+    prof = E.build_profile(cands, inp["ballots"], cand_order=inp.get("cand_order"))
+    bag = E._abstract_bag(inp["ballots"])
+    n = len(cands)
+    out = []
+
+    def grouped(sc):
+        return [sorted(c for c in sc if sc[c] == v) for v in sorted(set(sc.values()), reverse=True)]
+    for name, vec, fn, rule in (("first_place_votes", [1], U.first_place_votes, "Plurality"), ("borda_scores", list(range(n, 0, -1)), U.borda_scores, "Borda")):
+        want = positional_py(bag, cands, vec)
+        try:
+            with quiet():
+                got = dict(fn(prof))
+                rk = [sorted(s) for s in U.score_dict_to_ranking(want)]
+            if got != want:
+                out.append(("%s:WideWeights(py)" % name, "%s differs from the exact tallies" % name))
+            if rk != grouped(want):
+                out.append(("score_dict_to_ranking:WideWeights(py)", "the ranking induced by exact tallies %s is %s" % (sorted(map(str, want.values())), rk)))
+        except Exception as ex:  # noqa
+            out.append(("%s:WideWeights(py):Error" % name, type(ex).__name__))
+        ranked = sorted(want.values(), reverse=True)
+        for m in range(1, n + 1):
+            try:
+                with quiet():
+                    e = getattr(VE, rule)(prof, m=m, tiebreak=None)
+                if [sorted(s) for s in e.election_states[0].remaining] != grouped(want):
+                    out.append(("%s:WideWeights(py):Round0" % rule, "round-0 ranking of %s does not follow the exact tallies" % rule))
+                el = [c for s in e.get_elected() for c in s]
+                if len(el) != m or min(want[c] for c in el) < max([want[c] for c in cands if c not in el] or [min(want[c] for c in el)]):
+                    out.append(("%s:WideWeights(py):Winners" % rule, "%s winners are not the top %d of the exact tallies" % (rule, m)))
+            except ValueError:
+                if m < n and ranked[m - 1] != ranked[m]:
+                    out.append(("%s:WideWeights(py):SpuriousTie" % rule, "ValueError although the exact tallies have no tie at seat %d" % m))
+            except Exception as ex:  # noqa
+                out.append(("%s:WideWeights(py):Error" % rule, type(ex).__name__))
+    return [(sig, what, inp) for sig, what in out]
+
+
+def wide_weight_inputs(rng, n):
+    out = []
+    for _ in range(n):
+        nc = rng.randint(3, 5)
+        cands = D.ABC[:nc]
+        style = rng.choice(["big", "big", "close"])
+        ballots = []
+        for c in rng.sample(cands, rng.randint(2, nc)):
+            w = F(2**53 + rng.choice([0, 0, 1, 1, 2, 3])) * rng.choice([1, 1, 4]) if style == "big" else F(2 * 10**17 + rng.choice([0, 0, 1, 2]), 10**17)
+            tail = rng.sample([x for x in cands if x != c], rng.randint(0, nc - 1))
+            ballots.append({"r": [[x] for x in [c] + tail], "w": rat(w)})
+        order = list(cands)
+        rng.shuffle(order)
+        out.append({"cands": cands, "ballots": ballots, "cand_order": order})
+    return out
+
+
 def run(tier, seed, replay=None):
     res = Result(PID, tier, seed)
     scratch(PID)
@@ -197,7 +259,13 @@ def run(tier, seed, replay=None):
         for vs in pool.imap_unordered(wide_work, wide_inputs, chunksize=8):
             for sig, what, inp in vs:
                 res.violation(sig, what, {"input": inp})
-    res.notes["python_compared"] = len(wide_inputs) * 3
+    ww = wide_weight_inputs(rngw, 150 if tier == "quick" else 3000) if not replay else []
+    with mp.get_context("fork").Pool(16) as pool:
+        for vs in pool.imap_unordered(wide_weight_work, ww, chunksize=8):
+            for sig, what, inp in vs:
+                res.violation(sig, what, {"input": inp})
+    res.notes["python_compared"] = len(wide_inputs) * 3 + len(ww)
+    res.notes["wide_weights"] = {"profiles": len(ww), "note": "tallies less than one double-ulp apart (weights above 2^53, rationals 1e-17 apart) compared with positional_py"}
     res.notes["python_compared_note"] = ("score vectors with non-dyadic floats or denominators above 20,000 are outside TLC's exact range; they are compared with "
                                          "positional_py, a transcription of Scoring.tla's Positional that is itself cross-checked against the TLC-accepted traces of this run")
     etr = EL.record_corpus(elects)
